@@ -7,6 +7,7 @@ import PrqlModel.Lemmas.SpSeg
 import PrqlModel.Lemmas.SortBy
 import PrqlModel.Lemmas.RelBlock
 import PrqlModel.Lemmas.InferSorts
+import PrqlModel.Lemmas.Flatten
 namespace Props.C03
 open Rel Model.Take
 
@@ -306,5 +307,69 @@ example : (inferBlock false [.from [] false, .select [1], .sort [(2, false)]]).2
     [.keep (.from [] false), .keep (.select [1, 2])] := by decide
 
 end InferSorts
+
+/-! ## T3' which sort a transform call carries (mirror of the Flattener, semantic/resolver/flatten.rs)
+
+`Model.Flatten.flat` is tied to the code by replaying every recorded call of `Flattener::fold` (tools/flattrace.py).
+The sort that a take embeds - the one `take_gets_the_sort_in_effect` shows to become the ORDER BY of its LIMIT - is
+the sort in effect at source level: the most recent `sort` of the same pipeline, nothing after a `group`. -/
+section Flattener
+open Model.Flatten Lemmas.Flatten
+
+/-- **flattener_hands_on_the_sort_in_effect.** Whatever the nesting of group / window / join / append, the sort the pass
+hands to the transforms behind a pipeline is `effSort`: the most recent `sort`; select / derive / filter / take
+(`other`), join, append and window bodies retain it; `group` resets it. -/
+theorem flattener_hands_on_the_sort_in_effect (st : St) (p : PL) : (flat st p).1.sort = effSort st.sort p :=
+  flat_sort st p
+
+theorem order_retained_and_reset (s : Nat) (init side inner : PL) (tag byId : Nat) (e : Bool) :
+    effSort s (.other init tag) = effSort s init ∧ effSort s (.join init side) = effSort s init ∧
+    effSort s (.append init side) = effSort s init ∧ effSort s (.group init e byId inner) = 0 ∧
+    effSort s (.sort init tag) = tag := ⟨rfl, rfl, rfl, rfl, rfl⟩
+
+/-- **transform_carries_the_sort_in_effect.** At the top level of a query a transform call (take, filter, derive, ..)
+is emitted after its input with no partition, no frame and the sort in effect of its input. -/
+theorem transform_carries_the_sort_in_effect (init : PL) (tag : Nat) :
+    (flat {} (.other init tag)).2 = (flat {} init).2 ++ [.tr tag 0 0 0 (effSort 0 init)] := by
+  simp only [flat]
+  rw [flat_sort, flat_partition {} init rfl, flat_frame {} init rfl]
+
+/-- **group_body_sort_is_local.** `group g (sort b | take ..)` with a non-empty key: the take gets the partition `g` and
+the sort `b` of the body - not the sort of the enclosing pipeline -, the body's Sort is not emitted as a transform, the
+input is flattened with `sort_undone` set, and after the group no sort is in effect. -/
+theorem group_body_sort_is_local (init : PL) (g b t : Nat) :
+    flat {} (.group init false g (.other (.sort .nil b) t)) =
+      ({ sort := 0, undone := false, partition := 0, frame := (flat { undone := true } init).1.frame },
+       (flat { undone := true } init).2 ++ [.tr t 0 g (flat { undone := true } init).1.frame b]) := by
+  simp only [flat, Bool.false_eq_true, if_false, List.append_nil]
+  have hu : (flat { undone := true } init).1.undone = true := flat_undone _ init
+  simp [hu]
+
+/-- **sorts_in_front_of_a_group_are_dropped.** In a pipeline without nested calls that is flattened under `sort_undone`
+(the input and the body of a group with a non-empty key) every Sort disappears as a transform - one transform call is
+emitted per other transform - while without it every Sort is kept. -/
+theorem sorts_in_front_of_a_group_are_dropped (st : St) (p : PL) (hs : p.simple = true) :
+    (st.undone = true → (flat st p).2.length = countOther p) ∧
+    (st.undone = false → (flat st p).2.length = countOther p + countSort p) :=
+  ⟨undone_drops_sorts st p hs, sorts_kept st p hs⟩
+
+/-- **join_side_is_isolated** (the behaviour repaired by 147decc). The relation given to join / append is flattened
+starting from an empty sort, and the sort in effect after the join / append is the one in effect before it. -/
+theorem join_side_is_isolated (st : St) (init side : PL) :
+    (flat st (.join init side)).1.sort = (flat st init).1.sort ∧
+    (flat st (.append init side)).1.sort = (flat st init).1.sort ∧
+    (flat st (.join init (.other .nil 7))).2 =
+      (flat st init).2 ++ [.sideBegin, .tr 7 0 (flat st init).1.partition (flat st init).1.frame 0, .sideEnd,
+        .tr tagJoin 0 (flat st init).1.partition (flat st init).1.frame 0] := by
+  refine ⟨rfl, rfl, ?_⟩
+  simp [flat]
+
+/-- non-vacuity: `sort a | filter | group g (sort b | take 1) | join (from u | sort c | take 5) | take 3`
+(ids: a=11 b=12 c=13 g=21; tags: filter=31 take=32) -/
+example : flatten (.other (.join (.group (.other (.sort .nil 11) 31) false 21 (.other (.sort .nil 12) 32)) (.other (.sort .nil 13) 32)) 32) =
+    [.tr 31 0 0 0 11, .tr 32 0 21 0 12, .sideBegin, .tr tagSort 13 0 0 13, .tr 32 0 0 0 13, .sideEnd, .tr tagJoin 0 0 0 0,
+     .tr 32 0 0 0 0] := by decide
+
+end Flattener
 
 end Props.C03
